@@ -17,7 +17,7 @@ HasMetaKey(rep, k) == \E j \in 1..Len(rep.ks) : rep.ks[j] = k
 Judge_file_rt(c) ==
   LET P == Parse(c.schema) IN
   IF ~P.ok THEN << Cl("H.schema", "fail") >>
-  ELSE IF "perr" \in DOMAIN c THEN << Cl("C11.accept", "fail") >>
+  ELSE IF "perr" \in DOMAIN c THEN << Cl("C11.accept", "fail"), Cl("C04.write", "fail"), Cl("C05.layout", "fail") >>
   ELSE
   LET t == P.t
       names == P.st.names
